@@ -599,7 +599,8 @@ where
         }
 
         // Not considering the whole header
-        if data.len() > self.config.max_packet_size.get() {
+        // Broadcasts are framed with a u16 length prefix
+        if data.len() > self.config.max_packet_size.get() || data.len() > usize::from(u16::MAX) {
             return Err(Error::DataTooBig);
         }
 
